@@ -9,12 +9,14 @@ StringClasses == {"utf8", "printable", "ia5", "bmp", "teletex", "universal"}
 Operators == {"drop-last-byte", "drop-first-byte", "empty", "append-c2", "append-e0a0", "append-f0", "last-byte-c2", "set-high-bits", "double-content",
               "retag-utf8", "retag-printable", "retag-ia5", "retag-bmp", "retag-teletex", "retag-universal", "odd-length",
               "duplicate-node", "delete-node", "delete-first-child", "duplicate-first-child", "reverse-children", "swap-with-next",
-              "all-ff", "min-negative", "max-positive", "all-zero", "inc-last-byte"}
+              "all-ff", "min-negative", "max-positive", "all-zero", "inc-last-byte",
+              "mid-percent", "mid-space", "mid-control", "mid-colon", "mid-at", "mid-bracket"}
 NumberClasses == {"integer", "enumerated", "boolean"}
 Enabled(c, op) ==
    CASE op \in {"retag-utf8", "retag-printable", "retag-ia5", "retag-bmp", "retag-teletex", "retag-universal"} -> c \in StringClasses /\ op # ("retag-" \o c)
      [] op \in {"append-c2", "append-e0a0", "append-f0", "last-byte-c2", "set-high-bits"} -> c \in StringClasses \cup {"context-prim", "octets"}
      [] op = "odd-length" -> c \in {"bmp", "universal"}
+     [] op \in {"mid-percent", "mid-space", "mid-control", "mid-colon", "mid-at", "mid-bracket"} -> c \in {"ia5", "utf8", "printable", "context-prim"}
      [] op \in {"all-ff", "min-negative", "max-positive", "all-zero", "inc-last-byte"} -> c \in NumberClasses
      [] op \in {"delete-first-child", "duplicate-first-child", "reverse-children"} -> c \in {"sequence", "set", "context-cons"}
      [] op \in {"drop-last-byte", "drop-first-byte", "empty", "double-content"} -> c \notin {"sequence", "set", "context-cons", "null"}
